@@ -290,7 +290,40 @@ def refused_state_assignment(system):
     return "system.state = UnitArray(..., 'molecule/µm3') was accepted"
 
 
-def member(sd, U1, nsteps, refuse=False):
+def draw_writes(fp, phys):
+    """two `set_state` calls on distinct entries, drawn from a generator of their own (the main stream is not disturbed):
+    one bare number (an amount in the SYSTEM's units), one UnitValue in some third quantity unit"""
+    import random, zlib
+    r = random.Random(zlib.crc32(repr(fp).encode("utf-8")))
+    n, ns = phys["n"], phys["ns"]
+    es = r.sample(range(ns * n), 2) if ns * n >= 2 else [0]
+    amounts = [r.choice([3, 40, 2.5, 12, 7, 0.75, 100.25]) for _ in es]      # of the size of the generated states
+    forms = ["bare", "unitvalue"][:len(es)]
+    r.shuffle(forms)
+    return [{"s": e // n, "c": e % n, "e": e, "amount_molecules": a, "form": f, "unit": r.choice(L.QTY)} for e, a, f in zip(es, amounts, forms)]
+
+
+def apply_writes(system, writes, own):
+    """RDSystem.set_state(species, cell, value); returns what get_state gives back (SI) per write"""
+    from strengths.units import UnitValue
+    got = []
+    for w in writes:
+        amount = Fraction(w["amount_molecules"])
+        if w["form"] == "bare":
+            given = float(amount / L.si_factor(own, L.D_QTY))            # a bare number is an amount in the system's own units
+            system.set_state(w["s"], w["c"], given)
+            txt = "set_state(%d, %d, %r) [bare number; the system's units are %s]" % (w["s"], w["c"], given, list(own))
+        else:
+            given = float(amount / L.si_qty(w["unit"]))
+            system.set_state(w["s"], w["c"], UnitValue(given, w["unit"]))
+            txt = "set_state(%d, %d, UnitValue(%r, %r))" % (w["s"], w["c"], given, w["unit"])
+        back = system.get_state(w["s"], w["c"])
+        si, dim = L.q_of(back)
+        got.append({"call": txt, "get_state_si": si, "get_state_dim": tuple(dim)})
+    return got
+
+
+def member(sd, U1, nsteps, refuse=False, writes=None):
     """everything observed on one member: state, chem, dstate in U1, Euler samples — all in SI.  With `refuse`, a refused
     assignment of a wrong-dimension state is attempted on the system first (and on the script's own copy)."""
     import strengths.kinetics as kin
@@ -299,6 +332,12 @@ def member(sd, U1, nsteps, refuse=False):
     out = {"script": script, "system": system}
     if refuse:
         out["accepted"] = refused_state_assignment(system)
+    out["state_built"] = L.state_si(system.state)
+    if writes:
+        own = resolve(sd["system"].get("units"), resolve(sd.get("units"), L.DEFAULT_SYS, script_level=True))
+        net = resolve(sd["system"]["network"].get("units"), own)
+        out["own_units"], out["net_units"] = own, net
+        out["set_state"] = apply_writes(system, writes, own)
     out["state"] = L.state_si(system.state)
     out["chem"] = [int(v) for v in system.chemostats]
     try:
@@ -456,6 +495,80 @@ def check_dxdtf_pair(ctx, case):
                 return
 
 
+# ------------------------------------------------------------------------------------------------ on_t_sample with tiny numbers
+# (time unit of the script, e): the time step is the NUMBER 2^-e in that unit (dyadic: t = k*dt is accumulated exactly), a
+# sub-nanosecond run stated in hours / minutes / seconds; requested times fall strictly between two steps
+TSAMPLE_CASES = [("h", 44), ("h", 48), ("min", 42), ("s", 41)]
+TSAMPLE_REQUESTS = [Fraction(0), Fraction(5, 2), Fraction(11, 2), Fraction(37, 4)]          # in steps
+TSAMPLE_STEPS = [0, 3, 6, 10]                                                                # first step AT OR AFTER each request
+
+
+def tsample_run(T, dt_num, kind):
+    """A -> B with k*dt = 1/16 in a two-cell space, Euler engine, sampling_policy on_t_sample, everything stated as bare
+    numbers in (µm, T, molecule); returns [(t in s, [molecules])]"""
+    import strengths as st
+    U = ("µm", T, "molecule")
+    net = {"species": [{"label": "A", "density": 1000, "D": 0}, {"label": "B", "density": 0, "D": 0}],
+           "reactions": [{"eq": "A -> B", "k+": 1.0 / (16.0 * dt_num), "k-": 0}]}
+    space = {"type": "grid", "w": 2, "h": 1, "d": 1} if kind == "grid" else {"type": "graph", "nodes": [{}, {}], "edges": [{"nodes": [0, 1]}]}
+    system = L.build_system({"units": L.sysj(U), "network": net, "space": space})
+    script = st.RDScript(system, t_sample=[float(r) * dt_num for r in TSAMPLE_REQUESTS], time_step=dt_num, t_max=12.0 * dt_num,
+                         sampling_policy="on_t_sample", rng_seed=1, units_system=L.us_obj(U))
+    eng = common.load_engine("euler", "plain")
+    eng.setup(script)
+    k = 0
+    while k < 40 and eng.iterate():
+        k += 1
+    traj = eng.get_output()
+    eng.finalize()
+    ts = [float(v) for v in traj.t.convert("s").value]
+    ns, nc = traj.nspecies(), traj.ncells()
+    data = __import__("numpy").asarray(traj.data.convert("molecule").value, dtype="float64").reshape((traj.nsamples(), ns * nc))
+    return [(ts[j], [float(v) for v in data[j]]) for j in range(traj.nsamples())]
+
+
+def tsample_eval(case):
+    """(holds, what failed, detail): every requested time is recorded at the first step at or after it: recorded time k*dt and
+    the Euler state after k steps (x_A = 1000*(15/16)^k), for the run stated in T and for the same run stated in ns"""
+    T, e, kind = case["T"], case["e"], case["space"]
+    dt_num = 2.0 ** (-e)
+    dt_si = Fraction(1, 2 ** e) * L.si_time(T)
+    runs = {T: tsample_run(T, dt_num, kind), "ns": tsample_run("ns", float(dt_si / L.si_time("ns")), kind)}
+    detail = {"dt_s": float(dt_si), "requested_in_steps": [float(r) for r in TSAMPLE_REQUESTS], "expected_steps": TSAMPLE_STEPS,
+              "recorded_t_s": {u: [t for t, _ in r] for u, r in runs.items()}, "recorded_A_cell0": {u: [x[0] for _, x in r] for u, r in runs.items()}}
+    for u, r in runs.items():
+        who = "run stated in (µm, %s, molecule), time_step = %r %s (%r s)" % (u, dt_num if u == T else float(dt_si / L.si_time("ns")), u, float(dt_si))
+        if len(r) != len(TSAMPLE_STEPS):
+            return False, "%s: %d samples recorded for %d requested times" % (who, len(r), len(TSAMPLE_STEPS)), detail
+        for j, (t, x) in enumerate(r):
+            kexp = TSAMPLE_STEPS[j]
+            if not (close(t, kexp * dt_si, rel=1e-9) if kexp else t == 0):
+                return False, ("%s: the requested time %s steps is recorded at t = %r s (%r steps); the first step at or after it is step %d, %r s"
+                               % (who, float(TSAMPLE_REQUESTS[j]), t, t / float(dt_si), kexp, float(kexp * dt_si))), detail
+            xa = Fraction(1000) * Fraction(15, 16) ** kexp
+            exp = [xa, xa, 1000 - xa, 1000 - xa]
+            if not all(close(v, q, Fraction(1000), rel=1e-9) for v, q in zip(x, exp)):
+                return False, ("%s: the sample for the requested time %s steps holds %r molecules; the Euler state after %d steps is %r"
+                               % (who, float(TSAMPLE_REQUESTS[j]), x, kexp, [float(q) for q in exp])), detail
+    return True, None, detail
+
+
+def tsample_stream(ctx):
+    for T, e in TSAMPLE_CASES:
+        for kind in ("grid", "graph"):
+            case = {"kind": "tsample", "T": T, "e": e, "space": kind}
+            try:
+                ok, what, detail = tsample_eval(case)
+            except Exception as ex:  # noqa
+                ctx.violation("units:t-sample-raises", "on_t_sample run raised %s: %s" % (type(ex).__name__, str(ex)[:160]), case, impl=type(ex).__name__)
+                continue
+            ctx.case(("tsample", T, e, kind), nontrivial=True, sample={"op": "on_t_sample", "time_unit": T, "dt_number": 2.0 ** (-e), "space": kind,
+                                                                        "recorded_t_s": detail["recorded_t_s"][T]})
+            ctx.count("tsample_runs")
+            if not ok:
+                ctx.violation("units:t-sample-tiny-step", what, case, impl=detail["recorded_t_s"], expected=[float(k * Fraction(detail["dt_s"])) for k in TSAMPLE_STEPS])
+
+
 def dxdtf_stream(ctx, n):
     """size-1 systems with at least one reaction channel of order 0 or >= 2 (where the cell volume enters), requested unit
     systems whose space unit differs from the system's own"""
@@ -489,6 +602,7 @@ def dxdtf_stream(ctx, n):
 def run(ctx):
     rng = ctx.rng
     C1.out_of_time(ctx)          # start the harness clock
+    tsample_stream(ctx)
     dxdtf_stream(ctx, ctx.n(60, 1500))
     npairs = ctx.n(70, 1500)
     NSTEPS = 4
@@ -509,17 +623,20 @@ def run(ctx):
                 "refused_state_assignment_on": refuse_on}
         ctx.count("refused_state_assignment_on_%s" % refuse_on)
         fp = (C1.fingerprint(sdA), C1.fingerprint(sdB))
+        if k % 2 == 1 or k % 6 == 0:
+            case["set_state"] = draw_writes(fp, phys)       # both members get the same physical amounts written
+            ctx.count("pairs_with_set_state")
         for lv in set(R.changed):
             ctx.count("level_changed_" + lv)
         ctx.count("explicit_replacements", R.explicit)
         ctx.count("pairs")
         try:
-            a = member(sdA, U1, NSTEPS, refuse=(refuse_on == "A"))
+            a = member(sdA, U1, NSTEPS, refuse=(refuse_on == "A"), writes=case.get("set_state"))
         except Exception as ex:  # noqa
             ctx.violation("units:member-raises", "the description raised %s: %s" % (type(ex).__name__, str(ex)[:160]), case, impl=type(ex).__name__)
             continue
         try:
-            b = member(sdB, U2, NSTEPS, refuse=(refuse_on == "B"))
+            b = member(sdB, U2, NSTEPS, refuse=(refuse_on == "B"), writes=case.get("set_state"))
         except Exception as ex:  # noqa
             ctx.violation("units:rescaled-raises", "the re-scaled description raised %s: %s (levels changed: %s)" % (type(ex).__name__, str(ex)[:160], sorted(set(R.changed))),
                           case, impl=type(ex).__name__)
@@ -534,7 +651,7 @@ def run(ctx):
             sj = L.sys_json(mem["system"])
             edges = [sj["space"]["edge"]] if sj["space"]["kind"] == "grid" else [nd["edge"] for nd in sj["space"]["nodes"]]
             ops.append({"op": "build_system", "parent": L.sysj(parent), "edges_si": edges, "desc": descj(sd["system"])})
-            meta.append((dict(case, member=tag), sj, mem["state"]))
+            meta.append((dict(case, member=tag), sj, mem["state_built"]))
     # malformed stream: both sides must raise
     for k in range(ctx.n(12, 200)):
         sd, _ = gen_script_desc(ctx, rng, k)
@@ -601,6 +718,25 @@ def compare_pair(ctx, a, b, phys, case, changed):
         if m.get("accepted"):
             ctx.violation("state-setter:accepts-wrong-dimension", "member %s: %s" % (tag, m["accepted"]), case, impl="accepted", expected="ValueError")
             return
+    # ---- set_state: the written amounts are physical amounts (a bare number is in the SYSTEM's units), nothing else moves
+    for tag, m in (("A", a), ("B", b)):
+        for w, g in zip(case.get("set_state") or [], m.get("set_state") or []):
+            amount = Fraction(w["amount_molecules"])
+            where = "member %s (system units %s, network units %s): %s" % (tag, list(m["own_units"]), list(m["net_units"]), g["call"])
+            if tuple(g["get_state_dim"]) != L.D_QTY or not close(float(g["get_state_si"]), amount, rel=1e-9):
+                ctx.violation("units:set-state", "%s, then get_state gives %r molecules, the written amount is %r molecules"
+                              % (where, float(g["get_state_si"]), float(amount)), dict(case, member=tag), impl=float(g["get_state_si"]), expected=float(amount))
+                return
+        if m.get("set_state"):
+            written = {w["e"]: Fraction(w["amount_molecules"]) for w in case["set_state"]}
+            for e, (x0, x1) in enumerate(zip(m["state_built"], m["state"])):
+                exp = written.get(e, x0)
+                if not (close(float(x1), exp, rel=1e-9) if exp != 0 else x1 == 0):
+                    ctx.violation("units:set-state", "member %s (system units %s, network units %s) after %s: entry %d of system.state is %r molecules, "
+                                  "expected %r (%s)" % (tag, list(m["own_units"]), list(m["net_units"]), "; ".join(g["call"] for g in m["set_state"]), e, float(x1),
+                                                        float(exp), "the written amount" if e in written else "an entry that was not written"),
+                                  dict(case, member=tag, e=e), impl=float(x1), expected=float(exp))
+                    return
     # ---- initial state and chemostats
     if len(a["state"]) != len(b["state"]) or not all(close(float(x), y, rel=1e-12) if y != 0 else x == 0 for x, y in zip(a["state"], b["state"])):
         bad = next((e for e, (x, y) in enumerate(zip(a["state"], b["state"])) if not (close(float(x), y, rel=1e-12) if y != 0 else x == 0)), None)
@@ -614,7 +750,9 @@ def compare_pair(ctx, a, b, phys, case, changed):
     orc = L.oracle_rate(phys, a["state"])
     # ---- both against the physical system the generator wrote down (catches errors common to both members)
     if "state" not in case["A"]["system"]:
-        xs = L.default_state_phys(phys)
+        xs = list(L.default_state_phys(phys))
+        for w in case.get("set_state") or []:
+            xs[w["e"]] = Fraction(w["amount_molecules"])
         for e, (x, y) in enumerate(zip(a["state"], xs)):
             if not (close(float(x), y, rel=1e-9) if y != 0 else x == 0):
                 ctx.violation("units:state-physical", "default state entry %d is %r molecules, density x volume of the description gives %r" % (e, float(x), float(y)),
@@ -698,6 +836,13 @@ def compare_pair(ctx, a, b, phys, case, changed):
         if not all(abs(v) < 1e150 for v in ra + rb):
             ctx.count("euler_blowup_skipped")     # explicit Euler with a coarse step diverged (inf/nan): nothing to compare
             return
+        scale0 = max([abs(v) for v in a["traj"][0]] + [1.0])
+        if max(abs(v) for v in ra + rb) > 1e6 * scale0:
+            # explicit Euler with a coarse step is diverging (amounts a million times the initial ones): each step subtracts huge
+            # terms, rounding differences between the two statements of the same system are amplified without bound — the
+            # first step has been judged against the physical system above, later samples are not compared
+            ctx.count("euler_diverging_skipped")
+            return
         if not close(a["t"][k], Fraction(b["t"][k]), Fraction(max(a["t"])), rel=TOL):
             ctx.violation("units:traj-time", "sample %d is stamped %r s vs %r s (levels changed: %s)" % (k, a["t"][k], b["t"][k], lv), dict(case, sample=k),
                           impl=b["t"][k], expected=a["t"][k])
@@ -711,6 +856,10 @@ def compare_pair(ctx, a, b, phys, case, changed):
 
 def replay(ctx, rec):
     case = rec.get("case", rec)
+    if case["kind"] == "tsample":
+        ok, what, detail = tsample_eval(case)
+        detail["failure"] = what
+        return ok, detail
     if case["kind"] == "malformed":
         try:
             build_script(case["A"])
@@ -732,8 +881,8 @@ def replay(ctx, rec):
         check_dxdtf_pair(rec_, case)
         return not rec_.v, {"failures": rec_.v}
     try:
-        a = member(case["A"], tuple(case["U1"]), case["nsteps"], refuse=(case.get("refused_state_assignment_on") == "A"))
-        b = member(case["B"], tuple(case["U2"]), case["nsteps"], refuse=(case.get("refused_state_assignment_on") == "B"))
+        a = member(case["A"], tuple(case["U1"]), case["nsteps"], refuse=(case.get("refused_state_assignment_on") == "A"), writes=case.get("set_state"))
+        b = member(case["B"], tuple(case["U2"]), case["nsteps"], refuse=(case.get("refused_state_assignment_on") == "B"), writes=case.get("set_state"))
     except Exception as ex:  # noqa
         return False, {"impl": "raised " + repr(ex)}
     compare_pair(rec_, a, b, C1.phys_load(case["phys"]), case, [])
